@@ -230,9 +230,10 @@ def evaluate(case, only: str = None):
                                max(abs(g[k]), abs(Ds[k])), se[k], 0.0))
             if not abs(g[k] - Ds[k]) <= tol:
                 # a gradient that is off by a few percent of its size at most (cancellation in a regularised formula) is a
-                # different defect from one that is plainly wrong (zero, wrong sign, wrong factor)
+                # different defect from one that is plainly wrong (zero, wrong sign, wrong factor); the cancellation error of the
+                # regularised (1 - cos)/k reaches a few per cent for short magnets, hence 30 %
                 rel = abs(g[k] - Ds[k]) / max(abs(g[k]), abs(Ds[k]), 1e-300)
-                kind = "none" if isnone[k, j] else ("imprecise" if rel < 1e-2 else "wrong")
+                kind = "none" if isnone[k, j] else ("imprecise" if rel < 0.3 else "wrong")
                 shown = "None" if isnone[k, j] else repr(float(g[k]))
                 bad.setdefault(kind, []).append(
                     (k, f"d {names[k]} / d {key}: autograd {shown}, finite differences {float(Ds[k])!r} "
